@@ -10,7 +10,10 @@ use std::collections::{BTreeMap, BTreeSet};
 
 /// Component alphabet of the in-process universe: many byte-prefix pairs
 /// (a/ab/a-b/a.b/app/app2), punctuation, non-ASCII.
-pub const ALPHA: [&str; 8] = ["a", "ab", "a-b", "a.b", "app", "app2", "lib", "é"];
+/// Path components. The last one is long (55 bytes) and full of 2-byte characters: nested one,
+/// two or three deep it puts a character boundary next to every small offset and makes paths of
+/// 55-170 bytes.
+pub const ALPHA: [&str; 9] = ["a", "ab", "a-b", "a.b", "app", "app2", "lib", "é", "référentiel-de-données-partagées-et-schémas-générés"];
 pub const UNIVERSE_DEPTH: usize = 3;
 
 /// Create the universe work directory: every path over ALPHA up to depth 3 is a
@@ -472,7 +475,7 @@ pub mod decode {
         // sub-alphabet: 2..=4 distinct indices
         let k = 2 + b.below(3);
         let mut sub: Vec<usize> = vec![];
-        let mask = b.u8();
+        let mask = b.u16();
         for i in 0..ALPHA.len() {
             if mask >> i & 1 == 1 && sub.len() < k {
                 sub.push(i);
